@@ -232,6 +232,8 @@ class Translator:
         self.enums = enums or {}
         self.stores = list(stores or [])
         self.consts = consts or {}
+        self.extras_order = None     # pinned order (T-int 1 targets); None = sorted by name
+        self.extra_names = []
         self.self_maps = {}          # attribute name -> {enum constructor: string}  (set by translate())
         self.uses_q = False
         self.outputs = outputs
@@ -949,7 +951,16 @@ class Translator:
         self.ret_join = join(rts)
         self.n = 0
         body = self.block(self.body, env, fall_off)
-        ps = [(f'v_{p}', ty) for p, ty in self.params] + list(self.extra.values())
+        extras = list(self.extra.values())
+        # canonical order of the extra parameters, independent of the order of first use in the source (the
+        # equivalence statements apply t_<f> positionally: first-use order would let an edit that exchanges the
+        # roles of two same-typed observations go unnoticed)
+        if self.extras_order is not None and sorted(n for n, _ in extras) == sorted(self.extras_order):
+            extras.sort(key=lambda e: self.extras_order.index(e[0]))
+        elif self.extras_order is None:
+            extras.sort()
+        ps = [(f'v_{p}', ty) for p, ty in self.params] + extras
+        self.extra_names = [n for n, _ in extras]
         sig = ' '.join(f'({n} : {coq_type(ty)})' for n, ty in ps)
         rt = self.ret_join
         if isinstance(rt, tuple) and rt[0] == 'iter':
@@ -1295,10 +1306,17 @@ FUNCTIONS = {
     'standardize_slice_indices': dict(file=IMG, path=['_Image', '_standardize_slice_indices']),
     'standardize_row_column_indices': dict(file=IMG, path=['_Image', '_standardize_row_column_indices']),
     'raw_frame_native_range': dict(file=IMG, path=['_Image', 'get_raw_frame'], fragment=frag_raw_frame,
-                                   params=[('frame_index', Z)], outputs=['start', 'end']),
-    'bytes_per_frame_uncompressed': dict(file='io.py', path=['ImageFileReader', '_bytes_per_frame_uncompressed']),
+                                   params=[('frame_index', Z)], outputs=['start', 'end'],
+                                   extras=['a_PhotometricInterpretation_is_YBR_FULL_422', 'a_Rows', 'a_Columns',
+                                           'a_SamplesPerPixel', 'a_BitsAllocated']),
+    'bytes_per_frame_uncompressed': dict(file='io.py', path=['ImageFileReader', '_bytes_per_frame_uncompressed'],
+                                         extras=['a_pixels_per_frame', 'a_metadata_BitsAllocated',
+                                                 'a_metadata_PhotometricInterpretation_is_YBR_FULL_422',
+                                                 'a_metadata_Rows', 'a_metadata_Columns']),
     'read_frame_nbytes': dict(file='io.py', path=['ImageFileReader', 'read_frame_raw'], fragment=frag_read_frame_nbytes,
-                              params=[('index', Z)], outputs=['n_bytes']),
+                              params=[('index', Z)], outputs=['n_bytes'],
+                              extras=['a_number_of_frames', 'a_bytes_per_frame_uncompressed', 'a_metadata_BitsAllocated',
+                                      'a_pixels_per_frame']),
     'tile_pixel_matrix': dict(file=SPATIAL, path=['tile_pixel_matrix']),
     'tile_positions_counts': dict(file=SPATIAL, path=['compute_tile_positions_per_frame'],
                                   fragment=frag_tile_positions_counts,
@@ -1318,7 +1336,8 @@ FUNCTIONS = {
     'getitem_check_int': dict(file=VOLUME, path=['_VolumeBase', '_prepare_getitem_index', '_check_int'],
                               params=[('val', Z)]),
     'getitem_check_slice': dict(file=VOLUME, path=['_VolumeBase', '_prepare_getitem_index', '_check_slice'],
-                                params=[], attr_types={'val.start': OZ, 'val.stop': OZ}),
+                                params=[], attr_types={'val.start': OZ, 'val.stop': OZ},
+                                extras=['a_val_start', 'a_spatial_shape_dim', 'a_val_stop']),
     'getitem_size': dict(file=VOLUME, path=['_VolumeBase', '_prepare_getitem_index'], fragment=frag_getitem_size,
                          params=[('first', Z), ('last', Z), ('step', Z)], outputs=['size']),
     # ---- T-int 2 (tri-state flags, enums, opaque strings, store slots, rationals)
@@ -1420,16 +1439,16 @@ TARGETS = {
                                   "bind (t_decode_bit_window idx R C spp) (fun '(n, off) => the n bits from bit off of "
                                   'unpack_bits v, ValueError if fewer)   (int(((a / 8) % 1) * 8) read as a mod 8: trusted float steps)'),
     'pm_pixel_data_type/C19': dict(fn='pm_pixel_data_type', statement=
-                                   'forall d, bind (t_pm_pixel_data_type (kind d = f) (d = float32) (d = float64) (kind d = u) (d = uint8) '
-                                   "(d = uint16)) (fun '(tag, name) => Ok (attr of tag, name)) = bind (C19_Model.pm_attr d) (fun aw => "
+                                   'forall d, bind (t_pm_pixel_data_type (d = uint16) (d = uint8) (kind d = f) (kind d = u) (d = float32) '
+                                   "(d = float64)) (fun '(tag, name) => Ok (attr of tag, name)) = bind (C19_Model.pm_attr d) (fun aw => "
                                    'Ok (fst aw, attr_name (fst aw)))   (observations of pixel_array.dtype instantiated by the model dtype)'),
     'pm_bits/C19': dict(fn='pm_bits', statement=
                         'forall d a w, C19_Model.pm_attr d = Ok (a, w) -> t_pm_bits (tag of a) w = Ok (8 * w, bs, hb, pr) with '
                         '(bs, hb, pr) = (Some (8 * w), Some (8 * w - 1), Some 0) if a = PixelData else (None, None, None);  '
                         'forall tag w, t_pm_bits tag w does not raise   (pixel_array.itemsize read as the width w in bytes)'),
     'coded_concept_init/C17': dict(fn='coded_concept_init', statement=
-                                   'forall v s m ver, bind (t_coded_concept_init v s m ver (prefix "urn" v) (contains "://" v) '
-                                   '(slen v) (slen m)) (fun six slots => Ok (DS CodeValue LongCodeValue URNCodeValue CodeMeaning '
+                                   'forall v s m ver, bind (t_coded_concept_init v s m ver (slen m) (slen v) (contains "://" v) '
+                                   '(prefix "urn" v)) (fun six slots => Ok (DS CodeValue LongCodeValue URNCodeValue CodeMeaning '
                                    'CodingSchemeDesignator CodingSchemeVersion true)) = C17_Model.init v s m ver   (string '
                                    'observations of the code instantiated by the model\'s prefix / contains / slen; str(x) = x)'),
 }
@@ -1570,7 +1589,11 @@ def translate(fname, repo=None):
                     consts=consts)
     for attr, ename in spec.get('self_maps', {}).items():
         tr.self_maps[attr] = load_self_map(_tree(path), spec['path'][0], attr, ename, enums)
+    tr.extras_order = spec.get('extras')
     text, ps, rt = tr.translate()
+    if 'extras' in spec and tr.extra_names != spec['extras']:
+        raise Refuse(f'the set of attribute reads changed: {tr.extra_names} (the equivalence statement is about '
+                     f'{spec["extras"]})')
     ext = bool(enums or spec.get('stores') or consts or tr.uses_q or re.search(r'\bpy_(q[a-z]+|frac_scaled)\b', text)
                or any(ty not in (Z, OZ, B) for _, ty in ps))
     head = (GEN_HEADER_EXT if ext else GEN_HEADER).format(src=path, what='.'.join(spec['path']))
